@@ -284,6 +284,16 @@ func c10Case(c *mon.Ctx, aText, bText string, prof gen.Profile, kind int) {
 		targets = append(targets, [2]string{ref.ToJSON(t), "perturbed-at-edit"})
 	}
 	c.Nontrivial(joinKey(aText, bText, p))
+	if vname == "as-is" && c.Index%4 == 0 {
+		// a JSON Patch is ONE JSON document: text after the operations array makes it none at all
+		for _, tail := range []string{" []", "]", " x", "\n" + p} {
+			if d, err := jd.ReadPatchString(p + tail); err == nil {
+				c.Violation("ReadPatchString accepts a text that is not a JSON document (a JSON Patch followed by "+fmt.Sprintf("%q", trunc(tail))+"): an RFC 6902 implementation cannot even parse it", map[string]any{"read_as": ref.HunksString(Hunks(d))})
+				return
+			}
+		}
+		c.Feature("trailing_garbage_refused")
+	}
 	for _, t := range targets {
 		c.Event()
 		d, e1 := jd.ReadPatchString(p)
